@@ -97,9 +97,25 @@ def rand_graphs(pid, tier, pl, res, cov):
     runs = []
     for r in range(3 if pid == "C09" else 1):
         obs_path, _ = harness.replay(path, os.path.join(pl.dir, f"rand_rp{r}"),
-                                     ["--emit-dir", os.path.join(pl.dir, f"rand_emit{r}"), "--style-seed", str(seed())], jobs=8)
+                                     ["--emit-dir", os.path.join(pl.dir, f"rand_emit{r}"), "--style-seed", str(seed()), "--events"], jobs=8)
         runs.append({o["id"]: o for o in tlc.read_ndjson(obs_path)})
     n_eval = 0
+    # step-level trace validation of the loop (LoopTrace.tla): every logged step of every run must be the
+    # specification's step from the logged state; a rejected run is drift, and the rest is still validated
+    todo_runs = [(c, runs[0][c["id"]]) for c in cs]
+    rejected, events = [], 0
+    for _ in range(25):
+        ok, info = trace.validate_loop(todo_runs, os.path.join(pl.dir, "rand_loop"))
+        events = max(events, info["events"])
+        if ok:
+            break
+        rejected.append({k: info.get(k) for k in ("case", "event", "record")})
+        todo_runs = [(c, o) for c, o in todo_runs if c["id"] != info.get("case")]
+    cov["loop_trace_validation"] = {"runs": len(cs), "events": events, "rejected_runs": len(rejected)}
+    if rejected:
+        cov["loop_trace_validation"]["first_rejections"] = rejected[:3]
+        res.add_drift([f"loop trace of random run {r['case']} rejected at a `{r['event']}` record" for r in rejected[:4]], None)
+    cov["traces_validated_against_impl"] += len(cs) - len(rejected)
     if pid == "C09":
         for c in cs:
             sigs = {outcome_sig(run[c["id"]]) for run in runs}
